@@ -11,7 +11,8 @@ fn extract_limit(bounds: &Node, tag_name: &str) -> Result<Option<RecordValue>> {
         let type_str = tag
             .attribute("type")
             .invalid_err(format!("Cannot find type attribute of limit '{tag_name}'"))?;
-        let value_str = tag.text().unwrap_or("0");
+        let value_text = xml::text(&tag);
+        let value_str = value_text.as_deref().unwrap_or("0");
         Ok(match type_str {
             "Integer" => Some(RecordValue::Integer(
                 value_str
